@@ -2,7 +2,7 @@
    Only statements here; proofs are in GCS/FileListProofs.v. *)
 From Coq Require Import List NArith ZArith Bool Sorting Permutation.
 Import ListNotations.
-From Emu.Common Require Import Bytes Str.
+From Emu.Common Require Import Bytes Str StrProofs.
 From Emu.GCS Require Import Model FileList ListingProofs FileListProofs.
 Local Open Scope Z_scope.
 
@@ -11,7 +11,7 @@ Theorem C09_same_handlers : forall s r, (forall b p d c m, r <> RList b p d c m)
 Proof. intros s r H. destruct r; try reflexivity. exfalso. eapply H. reflexivity. Qed.
 Print Assumptions C09_same_handlers.
 
-(* the file walk visits the names in the order of their path-segment lists *)
+(* 1. the file walk visits the names in the order of their path-segment lists *)
 Theorem C09_fs_sort_perm : forall names, Permutation names (fs_sort names).
 Proof. exact fs_sort_perm. Qed.
 Print Assumptions C09_fs_sort_perm.
@@ -20,7 +20,44 @@ Theorem C09_fs_sort_sorted : forall names, StronglySorted name_le (fs_sort names
 Proof. exact fs_sort_sorted. Qed.
 Print Assumptions C09_fs_sort_sorted.
 
-(* finding GCS-2: bucket {"foo-bar/x", "foo/y"}, prefix "foo-": memory store lists "foo-bar/x",
+(* 2. order-compatible = already in segment order *)
+Theorem C09_order_compatible_iff : forall names, order_compatible names <-> StronglySorted name_le names.
+Proof. exact order_compatible_iff. Qed.
+Print Assumptions C09_order_compatible_iff.
+
+(* 3. on a bucket whose names are representable and order-compatible the two walks return the
+   same page, for every prefix, delimiter, cursor and page size *)
+Theorem C09_fs_walk_equiv : forall (bk : bucket) delim cursor prefix maxres,
+  asorted bk -> representable (map fst bk) -> order_compatible (map fst bk) ->
+  list_walk delim cursor prefix maxres (fs_entries bk) = list_walk delim cursor prefix maxres (mem_entries bk).
+Proof. exact fs_walk_equiv. Qed.
+Print Assumptions C09_fs_walk_equiv.
+
+(* in the model order-compatibility alone suffices *)
+Theorem C09_fs_walk_equiv_order : forall (bk : bucket) delim cursor prefix maxres,
+  asorted bk -> order_compatible (map fst bk) ->
+  list_walk delim cursor prefix maxres (fs_entries bk) = list_walk delim cursor prefix maxres (mem_entries bk).
+Proof. exact fs_walk_equiv_order. Qed.
+Print Assumptions C09_fs_walk_equiv_order.
+
+Theorem C09_fs_walk_equiv_nodelim : forall (bk : bucket) cursor prefix maxres,
+  asorted bk -> order_compatible (map fst bk) ->
+  list_walk [] cursor prefix maxres (fs_entries bk)
+  = (firstn maxres (filter (sel cursor prefix) (map fst bk)), [],
+     (maxres <? length (filter (sel cursor prefix) (map fst bk)))%nat).
+Proof. exact fs_walk_equiv_nodelim. Qed.
+Print Assumptions C09_fs_walk_equiv_nodelim.
+
+(* hence the handlers agree on such states, and so do whole runs through such states *)
+Theorem C09_stores_equivalent : forall s r, fs_compatible s -> handle_fs s r = handle s r.
+Proof. exact stores_equivalent. Qed.
+Print Assumptions C09_stores_equivalent.
+
+Theorem C09_run_fs_equiv : forall rs s, fs_compatible_run s rs -> run_fs s rs = run s rs.
+Proof. exact run_fs_equiv. Qed.
+Print Assumptions C09_run_fs_equiv.
+
+(* 4. finding GCS-2: bucket {"foo-bar/x", "foo/y"}, prefix "foo-": memory store lists "foo-bar/x",
    the file store lists nothing *)
 Theorem C09_stores_listing_refuted :
   list_proj (snd (handle c09_state c09_list)) = ([c09_foo_bar_x], [], None)
@@ -29,6 +66,38 @@ Theorem C09_stores_listing_refuted :
 Proof. exact stores_listing_refuted. Qed.
 Print Assumptions C09_stores_listing_refuted.
 
+(* 5. soundness of the file listing without any hypothesis on the names *)
+Theorem C09_prune_sound_partial : forall s b prefix delim cursor maxres s' items prefixes next,
+  handle_fs s (RList b prefix delim cursor maxres) = (s', mkResp 200 (BList items prefixes next)) ->
+  Forall (fun v => exists o, find_obj s b (v_name v) = Some o /\ v = view b (v_name v) o
+                    /\ lex_ltb (match cursor with Some c => c | None => [] end) (v_name v) = true
+                    /\ has_prefix (v_name v) prefix = true) items.
+Proof. exact prune_sound_partial. Qed.
+Print Assumptions C09_prune_sound_partial.
+
+(* ---- non-vacuity ---- *)
+
 Example C09_sort_nonvacuous :
-  fs_sort [c09_foo_bar_x; c09_foo_y] = [c09_foo_y; c09_foo_bar_x].
-Proof. vm_compute. reflexivity. Qed.
+  fs_sort [c09_foo_bar_x; c09_foo_y] = [c09_foo_y; c09_foo_bar_x]
+  /\ ~ order_compatible [c09_foo_bar_x; c09_foo_y].
+Proof. split; [vm_compute; reflexivity|]. unfold order_compatible. vm_compute. discriminate. Qed.
+
+(* bucket {"a/b", "a/c/d", "e"}: sorted, representable, order-compatible; a listing with a
+   delimiter collapses a/ on both stores *)
+Example C09_compatible_nonvacuous :
+  fs_compatible c09_ok_state
+  /\ list_proj (snd (handle_fs c09_ok_state (RList c09_bucket [] [47]%N None None))) = ([[101]%N], [[97; 47]%N], None)
+  /\ fs_entries_go [] [[97; 47; 98]; [97; 47; 99; 47; 100]; [101]]%N
+     = [([97]%N, true); ([97; 47; 98]%N, false); ([97; 47; 99]%N, true); ([97; 47; 99; 47; 100]%N, false); ([101]%N, false)].
+Proof.
+  split; [|split; vm_compute; reflexivity].
+  intros b bk H. unfold get_bucket in H. remember (s_buckets c09_ok_state) as bs eqn:Ebs. vm_compute in Ebs. subst bs.
+  cbn [alookup] in H. destruct (beqb b [98%N]); [|discriminate]. injection H as <-. split; [|split].
+  - repeat constructor.
+  - split.
+    + repeat constructor; try discriminate; vm_compute; intuition discriminate.
+    + intros n m Hn Hm [t [Ht E]]. cbn in Hn, Hm.
+      destruct Hn as [<-|[<-|[<-|[]]]]; destruct Hm as [<-|[<-|[<-|[]]]]; vm_compute in E;
+        try discriminate E; injection E; intros; subst; try discriminate; try congruence; apply Ht; reflexivity.
+  - vm_compute. reflexivity.
+Qed.
